@@ -363,6 +363,8 @@ func (p *Publisher) Open() {
 	p.mu.Unlock()
 }
 
+func (p *Publisher) IsHeld() bool { p.mu.Lock(); defer p.mu.Unlock(); return p.held }
+
 func (p *Publisher) InFlight() int { p.mu.Lock(); defer p.mu.Unlock(); return p.inFlight }
 
 func (p *Publisher) ServeHTTP(rw http.ResponseWriter, r *http.Request) {
